@@ -27,6 +27,17 @@ contract(V + "displacement_until_new_norm_sq_component_negative", "C02", model="
                   "old_vector[translation_direction] - result <= 0"],
          canary="result == 0")
 
+# the same helpers in two dimensions and in one (setting.dimension is free): the transverse part is what remains
+for _tag, _n, _rest in (("2d", 2, "old_vector[1 - translation_direction] * old_vector[1 - translation_direction]"), ("1d", 1, "0")):
+    for _name, _side, _cmp in (("positive", "old_vector[translation_direction] > 0", ">="), ("negative", "old_vector[translation_direction] <= 0", "<=")):
+        contract(V + "displacement_until_new_norm_sq_component_" + _name, "C02", tag=_tag, model="R", params={"old_vector": "list[float]"},
+                 requires=["len(old_vector) == %d" % _n, "0 <= translation_direction < %d" % _n, _side],
+                 raises={"ValueError": "norm_sq_of_new_vector - (%s) < 0" % _rest},
+                 ensures=["(old_vector[translation_direction] - result) * (old_vector[translation_direction] - result) + "
+                          "(%s) == norm_sq_of_new_vector" % _rest,
+                          "old_vector[translation_direction] - result %s 0" % _cmp],
+                 canary="result == 0", note="dimension %d" % _n)
+
 # ---------------------------------------------------------------------------------------------- hard spheres
 spec("sep_at(s, v, t, i)", "s[i] - v[i] * t")
 spec("dist2_at(s, v, t)", "sep_at(s, v, t, 0) * sep_at(s, v, t, 0) + sep_at(s, v, t, 1) * sep_at(s, v, t, 1) + "
@@ -133,3 +144,26 @@ lemma("hs-distance-is-quadratic", "C02", model="R",
       variables={"s0": "float", "s1": "float", "s2": "float", "v0": "float", "v1": "float", "v2": "float", "t": "float", "d2": "float"},
       goal="(s0 - v0 * t) * (s0 - v0 * t) + (s1 - v1 * t) * (s1 - v1 * t) + (s2 - v2 * t) * (s2 - v2 * t) - d2 == "
            "(v0 * v0 + v1 * v1 + v2 * v2) * t * t - 2 * (v0 * s0 + v1 * s1 + v2 * s2) * t + (s0 * s0 + s1 * s1 + s2 * s2 - d2)")
+
+
+# ---- the periodic 1/r bounding potential in C: displacement() - floor / fmod / sqrt on doubles and a five-way case split
+# over an implicit equation; BOUNDED native check of the inversion identity against an independent summation of the
+# uphill energy over the periodic images (never counted as proved)
+CBD = "jellyfysh/potential/inverse_power_coulomb_bounding_potential/inverse_power_coulomb_bounding_potential.c:"
+CBD_GEN = ("def gen(rng):\n"
+           "    L = rng.choice([1.0, 2.0, 0.8, 3.7, 10.0])\n"
+           "    pp = rng.choice([1.0, -1.0, 1.5837, -0.37, 4.2])\n"
+           "    sx = rng.uniform(-L / 2, L / 2) if rng.random() < 0.9 else rng.choice([-L / 2, 0.0, L / 2])\n"
+           "    sy, sz = rng.uniform(-L / 2, L / 2), rng.uniform(-L / 2, L / 2)\n"
+           "    import math\n"
+           "    rho2 = sy * sy + sz * sz\n"
+           "    per_length = abs(pp) * abs(1 / math.sqrt(rho2) - 1 / math.sqrt(L * L / 4 + rho2)) if rho2 > 0 else 1.0\n"
+           "    budget = per_length * rng.choice([rng.uniform(0.0, 1.0), rng.uniform(1.0, 4.5), 10 ** rng.uniform(-6, 0)])\n"
+           "    return {'prefactor_product': pp, 'sx': sx, 'sy': sy, 'sz': sz, 'potential_change': budget, 'system_length': L}\n")
+contract(CBD + "displacement", "C02", model="R", tag="native", native_gen=CBD_GEN,
+         requires=["sy * sy + sz * sz > 1e-4 * system_length * system_length", "potential_change > 0"],
+         ensures=["native: result >= -1e-9 * system_length",
+                  "native: close(cb_uphill(prefactor_product, sx, sy, sz, result, system_length), potential_change)"],
+         ghost={"bounded_only": True},
+         note="bounded stand-in: the returned displacement inverts the cumulative uphill energy, including whole box "
+              "traversals, for five box lengths, both signs of the charge product and budgets up to 4.5 traversals")
